@@ -102,6 +102,11 @@ def gen_history(rnd, g, kind="", pinned=None):
                            "mk-nested/ident", "mk-none/ident", "mk-float-3/ident", "mk-text-2/ident", "mk-dict-2/ident",
                            "mk-udict-2/ident", "mk-udict-1/setkey-beta-v"])
         base += "/" + g.query(0, first=False, max_len=2)
+    if base is None and rnd.random() < 0.1:
+        # a step that switches caching off / makes the result volatile, followed by steps that look as if they undid it
+        g._numeric_prefix = False
+        base = "%s/%s/%s/%s" % (g.action(0, 0, True), rnd.choice(["nocache", "vol", "nocache/ident", "vol/cat-v"]),
+                                rnd.choice(["recache", "nonvol", "recache/nonvol", "nonvol/recache"]), g.query(0, first=False, max_len=2))
     if base is None and rnd.random() < 0.08:
         # state variables holding values of every kind (they travel in the caches' metadata)
         base = "one/tag-~X~/%s~E/%s" % (rnd.choice(["mk-tuple-2", "mk-list-2", "mk-dict-2", "mk-text-2", "mk-float-3", "mk-none", "mk-nested"]),
